@@ -238,7 +238,8 @@ func cmdCheck(args []string) int {
 		if scope == "" && re.Obligations < r.Floor || scope != "" && re.Obligations == 0 {
 			errs = append(errs, fmt.Sprintf("%s: vacuity guard: %d obligations < floor %d (rule has gone blind?)", rn, re.Obligations, r.Floor))
 		}
-		if re.Obligations > 0 && re.Unmodelled*10 > re.Obligations {
+		// (a single undecided instance is reported and tolerated; two or more must stay within one in ten)
+		if re.Obligations > 0 && re.Unmodelled >= 2 && re.Unmodelled*10 > re.Obligations {
 			errs = append(errs, fmt.Sprintf("%s: %d of %d instances unmodelled (>10%%)", rn, re.Unmodelled, re.Obligations))
 		}
 		revs = append(revs, re)
